@@ -141,8 +141,22 @@ async fn client(sh: Arc<Shared>, c: usize, spec: ClientSpec, slots: Slots) {
             Op::StopDeferred { slot, defer } => match take_slot(&slots, c, slot) {
                 Some(Hdl::S(a, h)) => {
                     {
-                        let fut = h.make_stop(&sh);
-                        if defer == 0 {
+                        let mut fut = h.make_stop(&sh);
+                        if defer == 3 {
+                            // polled exactly once, then dropped (now_or_never, the losing branch of a select!): either that
+                            // one poll completed the stop, or nothing was requested
+                            let g = CallGuard::start(&sh, a, OpKind::Stop, '-', 0, 0, ctx);
+                            match futures::poll!(fut.as_mut()) {
+                                std::task::Poll::Ready(res) => {
+                                    g.end(to_res(res, |_| Rep::None));
+                                }
+                                std::task::Poll::Pending => {
+                                    drop(fut);
+                                    drop(g);
+                                }
+                            }
+                            tokio::task::yield_now().await;
+                        } else if defer == 0 {
                             drop(fut);
                             sh.log.push(K::Note(format!("stop-future-dropped-unpolled actor {a}")));
                             tokio::task::yield_now().await;
